@@ -13,6 +13,8 @@ def emit(ctx, module, cfgs, render, consts, invariants, what, shards=8, simulate
 
     def one(g):
         c = dict(consts, Cfgs=[render(cfgs[i]) for i in g], NCfg=len(g), EMIT=True)
+        if module == "EdgeList":
+            c.pop("V"), c.pop("NCfg")
         return g, tlc.run_tlc(module, c, invariants=list(invariants) + ["EmitInv"], workers=1, timeout=3000,
                               simulate=simulate, depth=depth, seed=ctx.seed if simulate else None)
     with ThreadPoolExecutor(max_workers=shards) as ex:
@@ -63,7 +65,50 @@ def part_ngram(ctx):
     judge(ctx, merge, res, "merge", lambda it: any(it["test"]))
 
 
-PARTS = [("ngram", part_ngram)]
+def part_skipgram(ctx):
+    rng = random.Random(ctx.seed + 2)
+    T = count_cfg.tok
+    cfgs = [dict(kernel=k, r=r, mask=False, tok=T()) for k in ("flat", "harmonic") for r in (1, 2, 3)]
+    cfgs += [dict(kernel="flat", r=2, mask=False, tok=T(minOcc=2)), dict(kernel="harmonic", r=2, mask=False, tok=T(maxOcc=2)),
+             dict(kernel="flat", r=1, mask=False, tok=T(excluded=(0,))), dict(kernel="flat", r=2, mask=False, tok=T(maxUnique=1)),
+             dict(kernel="harmonic", r=3, mask=False, tok=T(minDocOcc=2))]
+    items = emit(ctx, "Skipgram", cfgs, count_cfg.tla_ngram,
+                 dict(V=ctx.pick(2, 3), MaxLen=ctx.pick(3, 3), MaxDocs=2, TMaxLen=ctx.pick(2, 3), TMaxDocs=ctx.pick(2, 2)),
+                 ["RowTotals"], "Skipgram exhaustive")
+    if ctx.quick and len(items) > 20000:
+        ctx.exhaustive = False
+        items = rng.sample(items, 20000)
+    ctx.log("skipgram instances", len(items))
+    res = pool_map("counts", "run_skipgram", items, min_chunk=300)
+    judge(ctx, items, res, "skipgram", lambda it: bool(it["trans"]))
+    it = items[len(items) // 2]
+    ctx.sample({"part": "skipgram", "train": it["corpus"], "transform": it["test"], "cfg": it["cfg"], "expected_transform": it["trans"][:5]})
+
+
+def part_edgelist(ctx):
+    rng = random.Random(ctx.seed + 3)
+    cfgs = [dict(joint=False, rowdict=[], coldict=[]), dict(joint=True, rowdict=[], coldict=[]),
+            dict(joint=False, rowdict=[[0, 0], [2, 3]], coldict=[]), dict(joint=False, rowdict=[], coldict=[[1, 0], [0, 1]]),
+            dict(joint=True, rowdict=[[0, 1], [1, 0]], coldict=[]), dict(joint=True, rowdict=[], coldict=[[0, 0], [1, 2]]),
+            dict(joint=False, rowdict=[[1, 0]], coldict=[[0, 0], [1, 1], [2, 2]]),
+            dict(joint=True, rowdict=[[1, 0]], coldict=[]), dict(joint=True, rowdict=[], coldict=[[0, 0]])]
+    items = emit(ctx, "EdgeList", cfgs, lambda c: c,
+                 dict(V=0, L=2, Vals=tlc.TLAExpr("{-1, 0, 2}"), MaxEdges=2, TMaxEdges=2), ["Conservation"], "EdgeList exhaustive")
+    for it in items:
+        it.pop("V", None)
+        it["styles"] = ["str", "int"] if rng.random() < 0.3 else ["str"]
+    if ctx.quick and len(items) > 30000:
+        ctx.exhaustive = False
+        items = rng.sample(items, 30000)
+    ctx.log("edgelist instances", len(items))
+    res = pool_map("counts", "run_edgelist", items, min_chunk=500)
+    judge(ctx, items, res, "edgelist", lambda it: bool(it["trans"]))
+    it = items[len(items) // 2]
+    ctx.sample({"part": "edgelist", "train_edges": it["edges"], "transform_edges": it["test"], "cfg": it["cfg"],
+                "expected_shape": it["shape"], "expected_transform": it["trans"][:5]})
+
+
+PARTS = [("ngram", part_ngram), ("skipgram", part_skipgram), ("edgelist", part_edgelist)]
 
 
 def run(ctx):
